@@ -20,51 +20,85 @@ namespace Thanos.Gate
     high-water mark never exceeded `cap`, and `gate.Done` never panicked. -/
 def C24_full (doneFirst : Bool) : Prop := ∀ (cap : Nat) (evs : List Ev), Safe (run doneFirst cap evs)
 
-/-- the invariant of the repaired skeleton: tokens = running requests = gauge -/
+/-- the invariant of the repaired skeleton: with a gate, tokens = running requests = gauge; without
+    one (cap = 0) nothing is held, nobody waits, no metric moves -/
 def Inv (s : St) : Prop :=
-  s.held = s.running ∧ s.held ≤ s.cap ∧ s.maxRunning ≤ s.cap ∧ s.panics = 0 ∧ s.gauge = (s.held : Int)
+  s.panics = 0 ∧
+  (1 ≤ s.cap → s.held = s.running ∧ s.held ≤ s.cap ∧ s.maxRunning ≤ s.cap ∧ s.gauge = (s.held : Int)) ∧
+  (s.cap = 0 → s.held = 0 ∧ s.waiting = 0 ∧ s.gauge = 0 ∧ s.total = 0)
 
 theorem inv_init (cap : Nat) : Inv (St.init cap) := by simp [Inv, St.init]
 
+theorem inv_noop {t : St} (hcap : t.cap = 0) (h : t.held = 0 ∧ t.waiting = 0 ∧ t.gauge = 0 ∧ t.total = 0)
+    (hp : t.panics = 0) : Inv t :=
+  ⟨hp, fun hc => by omega, fun _ => h⟩
+
 theorem inv_enter {s : St} (h : Inv s) (hlt : s.held < s.cap) : Inv (enter s) := by
-  obtain ⟨h1, h2, h3, h4, h5⟩ := h
-  refine ⟨?_, ?_, ?_, ?_, ?_⟩
+  obtain ⟨h4, hg, _⟩ := h
+  have hc : 1 ≤ s.cap := by omega
+  obtain ⟨h1, h2, h3, h5⟩ := hg hc
+  refine ⟨h4, fun _ => ⟨?_, ?_, ?_, ?_⟩, fun h0 => by simp only [enter] at h0; omega⟩
   · simp only [enter]; omega
   · simp only [enter]; omega
   · simp only [enter]; exact Nat.max_le.mpr ⟨h3, by omega⟩
-  · simp only [enter]; exact h4
   · simp only [enter]; omega
 
 theorem inv_step {s : St} (h : Inv s) (e : Ev) : Inv (step false s e) := by
   have h' := h
-  obtain ⟨h1, h2, h3, h4, h5⟩ := h
-  cases e with
-  | arrive =>
-    simp only [step]
-    split
-    · exact inv_enter h' (by assumption)
-    · exact ⟨h1, h2, h3, h4, h5⟩
-  | arriveCancelled => simpa [step] using h'
-  | acquire =>
-    simp only [step]
-    split
-    · rename_i hc
-      exact inv_enter (s := { s with waiting := s.waiting - 1 }) ⟨h1, h2, h3, h4, h5⟩ hc.2
-    · exact h'
-  | cancel =>
-    simp only [step]
-    split
-    · exact h'
-    · exact ⟨h1, h2, h3, h4, h5⟩
-  | finish =>
-    simp only [step]
-    split
-    · exact h'
-    · rename_i hr
-      have hpos : s.held > 0 := by omega
-      simp only [done, hpos, if_true]
-      refine ⟨by simp only; omega, by simp only; omega, h3, h4, ?_⟩
-      simp only; omega
+  obtain ⟨h4, hg, hn⟩ := h
+  by_cases hc0 : s.cap = 0
+  · -- no gate
+    obtain ⟨n1, n2, n3, n4⟩ := hn hc0
+    cases e with
+    | arrive =>
+      simp only [step, hc0, if_true]
+      exact inv_noop (by simp [enterNoop, hc0]) (by simp [enterNoop, n1, n2, n3, n4]) (by simp [enterNoop, h4])
+    | arriveCancelled =>
+      simp only [step, hc0, if_true]
+      exact inv_noop (by simp [enterNoop, hc0]) (by simp [enterNoop, n1, n2, n3, n4]) (by simp [enterNoop, h4])
+    | acquire => simp only [step, n2]; simpa using h'
+    | cancel => simp only [step, n2]; simpa using h'
+    | cancelRunning => exact h'
+    | finish =>
+      simp only [step, hc0, if_true]
+      split
+      · exact h'
+      · exact inv_noop (by simp [hc0]) (by simp [n1, n2, n3, n4]) (by simp [h4])
+  · have hc : 1 ≤ s.cap := by omega
+    obtain ⟨h1, h2, h3, h5⟩ := hg hc
+    have inv_tot : Inv { s with total := s.total + 1 } :=
+      ⟨h4, fun _ => ⟨h1, h2, h3, h5⟩, fun h0 => absurd h0 hc0⟩
+    cases e with
+    | arrive =>
+      simp only [step, hc0, if_false]
+      split
+      · exact inv_enter inv_tot (by assumption)
+      · exact ⟨h4, fun _ => ⟨h1, h2, h3, h5⟩, fun h0 => absurd h0 hc0⟩
+    | arriveCancelled =>
+      simp only [step, hc0, if_false]
+      exact inv_tot
+    | acquire =>
+      simp only [step]
+      split
+      · rename_i hcnd
+        exact inv_enter (s := { s with waiting := s.waiting - 1 })
+          ⟨h4, fun _ => ⟨h1, h2, h3, h5⟩, fun h0 => absurd h0 hc0⟩ hcnd.2
+      · exact h'
+    | cancel =>
+      simp only [step]
+      split
+      · exact h'
+      · exact ⟨h4, fun _ => ⟨h1, h2, h3, h5⟩, fun h0 => absurd h0 hc0⟩
+    | cancelRunning => exact h'
+    | finish =>
+      simp only [step, hc0, if_false]
+      split
+      · exact h'
+      · rename_i hr
+        have hpos : s.held > 0 := by omega
+        simp only [done, hpos, if_true]
+        refine ⟨h4, fun _ => ⟨by simp only; omega, by simp only; omega, h3, ?_⟩, fun h0 => absurd h0 hc0⟩
+        simp only; omega
 
 theorem inv_run (cap : Nat) (evs : List Ev) : Inv (run false cap evs) := by
   unfold run
@@ -84,7 +118,7 @@ theorem run_cap (df : Bool) (cap : Nat) (evs : List Ev) : (run df cap evs).cap =
     | cons e evs ih =>
       intro s
       simp only [List.foldl_cons, ih]
-      cases e <;> simp only [step, enter, done] <;> (repeat' split) <;> rfl
+      cases e <;> simp only [step, enter, enterNoop, done] <;> (repeat' split) <;> rfl
   simpa [St.init] using this (St.init cap)
 
 /-- **C24 for the repaired skeleton** (`Start`, error check, `defer Done`): every capacity, every
@@ -92,14 +126,23 @@ theorem run_cap (df : Bool) (cap : Nat) (evs : List Ev) : (run df cap evs).cap =
     (also arrivals whose context is already done) and completions. -/
 theorem C24_fixed : C24_full false := by
   intro cap evs
-  obtain ⟨h1, h2, h3, h4, _⟩ := inv_run cap evs
-  exact ⟨by omega, h3, h4⟩
+  obtain ⟨h4, hg, _⟩ := inv_run cap evs
+  exact ⟨fun hc => by obtain ⟨h1, h2, h3, _⟩ := hg hc; exact ⟨by omega, h3⟩, h4⟩
 
 /-- moreover the in-flight gauge is exact -/
-theorem C24_fixed_gauge (cap : Nat) (evs : List Ev) :
+theorem C24_fixed_gauge (cap : Nat) (evs : List Ev) (hc : 1 ≤ cap) :
     (run false cap evs).gauge = ((run false cap evs).running : Int) := by
-  obtain ⟨h1, _, _, _, h5⟩ := inv_run cap evs
+  obtain ⟨_, hg, _⟩ := inv_run cap evs
+  obtain ⟨h1, _, _, h5⟩ := hg (by rw [run_cap]; exact hc)
   rw [h5, h1]
+
+/-- without a configured limit (`max_concurrency` 0: the limiter keeps `gate.NewNoop()`) nothing
+    is ever held, nobody ever waits, and nothing panics -/
+theorem C24_noop (evs : List Ev) :
+    (run false 0 evs).waiting = 0 ∧ (run false 0 evs).held = 0 ∧ (run false 0 evs).panics = 0 := by
+  obtain ⟨h4, _, hn⟩ := inv_run 0 evs
+  obtain ⟨n1, n2, _, _⟩ := hn (run_cap false 0 evs)
+  exact ⟨n2, n1, h4⟩
 
 /-- **The skeleton with `defer Done()` before the error check violates C24**: capacity 1, A is
     running, B waits, B's client gives up ⇒ B's deferred Done frees A's slot ⇒ C starts while A
@@ -111,7 +154,7 @@ theorem C24_doneFirst_panics : (run true 1 [.arrive, .arriveCancelled, .finish])
 
 theorem C24_full_false : ¬ C24_full true := by
   intro h
-  have := (h 1 [.arrive, .arrive, .cancel, .arrive]).1
+  have := ((h 1 [.arrive, .arrive, .cancel, .arrive]).1 (by decide)).1
   revert this
   decide
 
@@ -191,12 +234,33 @@ def doneFirstOfSkeleton : List String → Option Bool
 theorem C24_skeleton_fact_http : doneFirstOfSkeleton Thanos.Facts.receiveHTTPGate = some codeDoneFirstHTTP := by decide
 theorem C24_skeleton_fact_otlp : doneFirstOfSkeleton Thanos.Facts.receiveOTLPHTTPGate = some codeDoneFirstOTLP := by decide
 
+/-- Regenerated obligations about the parts of the model that are not the handler skeleton:
+    each handler calls Start once and Done once (so every return path after the gate — answer,
+    forward timeout, error — releases exactly once); `gate.New` uses the noop gate exactly for
+    `maxConcurrent <= 0` and the limiter builds a gate exactly for `max_concurrency > 0`, starting
+    from `gate.NewNoop()`; the noop gate calls nothing; the in-flight wrapper increments after a
+    successful inner Start and decrements before the inner Done; the total wrapper counts before
+    the inner Start; the wrappers are stacked Duration(Total(InFlight(gate))). -/
+theorem C24_gate_facts :
+    Thanos.Facts.receiveHTTPGateCalls = ["writeGate.Start", "writeGate.Done"] ∧
+    Thanos.Facts.receiveOTLPHTTPGateCalls = ["writeGate.Start", "writeGate.Done"] ∧
+    Thanos.Facts.gateNewNoopCond = "maxConcurrent <= 0" ∧
+    Thanos.Facts.limiterGateCond = "maxWriteConcurrency > 0" ∧
+    Thanos.Facts.limiterDefaultGate = ["gate.NewNoop"] ∧
+    Thanos.Facts.gateNoopCalls = [] ∧
+    Thanos.Facts.gateInFlightStart = ["Start", "Inc"] ∧
+    Thanos.Facts.gateInFlightDone = ["Dec", "Done"] ∧
+    Thanos.Facts.gateTotalStart = ["Inc", "Start"] ∧
+    Thanos.Facts.gateNewWrappers = ["InstrumentGateDuration", "InstrumentGateTotal", "InstrumentGateInFlight"] := by
+  refine ⟨?_, ?_, ?_, ?_, ?_, ?_, ?_, ?_, ?_, ?_⟩ <;> decide
+
 /-! ### non-vacuity -/
 
 -- capacity 2, five requests: two run, two wait, one waiter gives up, one completes, a waiter
 -- takes the freed slot, a request with a dead context comes and goes
-example : run false 2 [.arrive, .arrive, .arrive, .arrive, .cancel, .finish, .acquire, .arriveCancelled]
-    = ⟨2, 2, 2, 0, 2, 0, 2⟩ := by decide
+example : run false 2 [.arrive, .arrive, .arrive, .arrive, .cancel, .cancelRunning, .finish, .acquire, .arriveCancelled]
+    = ⟨2, 2, 2, 0, 2, 5, 0, 2⟩ := by decide
+example : run false 0 [.arrive, .arriveCancelled, .arrive, .finish] = ⟨0, 0, 2, 0, 0, 0, 0, 3⟩ := by decide
 example : (run true 2 [.arrive, .arrive, .arrive, .arrive, .cancel, .finish, .acquire, .arriveCancelled]).panics = 0 ∧
     (run true 2 [.arrive, .arrive, .arrive, .arrive, .cancel, .acquire, .acquire]).running = 3 := by decide
 
